@@ -228,6 +228,19 @@ theorem C16_int_roundings_id (a : Int) :
 /-- `#` and `><` are `xor` (YAP). -/
 theorem C16_xor_aliases (a b : PyNum) : py_hash_2 a b = py_xor_2 a b ∧ py_gtlt_2 a b = py_xor_2 a b := ⟨rfl, rfl⟩
 
+/-! ## bit operations: two's complement of unbounded width (SWI, YAP), characterised bit by bit -/
+theorem C16_bitand (a b : Int) :
+    ∃ r, py_bitand_2 (.int a) (.int b) = .ok (.int r) ∧ ∀ i, Iso.bit r i = (Iso.bit a i && Iso.bit b i) :=
+  ⟨_, rfl, bit_land a b⟩
+theorem C16_bitor (a b : Int) :
+    ∃ r, py_bitor_2 (.int a) (.int b) = .ok (.int r) ∧ ∀ i, Iso.bit r i = (Iso.bit a i || Iso.bit b i) :=
+  ⟨_, rfl, bit_lor a b⟩
+theorem C16_xor (a b : Int) :
+    ∃ r, py_xor_2 (.int a) (.int b) = .ok (.int r) ∧ ∀ i, Iso.bit r i = (Iso.bit a i ^^ Iso.bit b i) :=
+  ⟨_, rfl, bit_xor a b⟩
+/-- non-vacuity / sanity of `Iso.bit`: −3 = …11101₂ -/
+example : (List.range 4).map (Iso.bit (-3)) = [true, false, true, true] := by decide
+
 /-! ## float arguments (floats = exact rationals, see PyNum.lean) -/
 /-- `sign/1` keeps the float type. -/
 theorem C16_sign_float (q : Rat) : py_sign_1 (.flt q) = .ok (.flt (Iso.signF q)) := by
